@@ -173,6 +173,7 @@ def _decorate_namespace_function(
         base_postconditions = []  # type: List[Contract]
 
         bases_have_func = False
+        base_accepts_all = False
         for base in bases:
             if _has_member(base, key):
                 bases_have_func = True
@@ -189,6 +190,12 @@ def _decorate_namespace_function(
                     )
                     base_postconditions.extend(base_contract_checker.__postconditions__)
 
+                if (
+                    base_contract_checker is None
+                    or not base_contract_checker.__preconditions__
+                ):
+                    base_accepts_all = True
+
         # Collapse preconditions and postconditions from the bases with the function's own ones
         preconditions = _collapse_preconditions(
             base_preconditions=base_preconditions,
@@ -196,6 +203,12 @@ def _decorate_namespace_function(
             preconditions=preconditions,
             func=func,
         )
+
+        if base_accepts_all:
+            # One of the bases accepts all possible input, and so must this function (preconditions are OR'ed).
+            preconditions = []
+            if contract_checker is not None:
+                contract_checker.__preconditions__ = preconditions  # type: ignore
 
         snapshots = _collapse_snapshots(
             base_snapshots=base_snapshots, snapshots=snapshots
@@ -252,6 +265,7 @@ def _decorate_namespace_property(
         base_postconditions = []  # type: List[Contract]
 
         bases_have_func = False
+        base_accepts_all = False
         for base in bases:
             if _has_member(base, key):
                 base_property = getattr(base, key)
@@ -288,6 +302,12 @@ def _decorate_namespace_property(
                     )
                     base_postconditions.extend(base_contract_checker.__postconditions__)
 
+                if (
+                    base_contract_checker is None
+                    or not base_contract_checker.__preconditions__
+                ):
+                    base_accepts_all = True
+
         # Add preconditions and postconditions of the function
         preconditions = []  # type: List[List[Contract]]
         snapshots = []  # type: List[Snapshot]
@@ -305,6 +325,12 @@ def _decorate_namespace_property(
             preconditions=preconditions,
             func=func,
         )
+
+        if base_accepts_all:
+            # One of the bases accepts all possible input, and so must this function (preconditions are OR'ed).
+            preconditions = []
+            if contract_checker is not None:
+                contract_checker.__preconditions__ = preconditions  # type: ignore
 
         snapshots = _collapse_snapshots(
             base_snapshots=base_snapshots, snapshots=snapshots
